@@ -36,13 +36,13 @@ func (k c20case) key() string { b, _ := json.Marshal(k); return string(b) }
 
 var c20TaskNames = []string{"build", "test", "lint", "zeta", "alpha", "default", "deploy", "Mid"}
 var c20VarNames = []string{"VERSION", "NAME", "OUT", "flag", "Zed"}
-var c20Docs = []string{" Build the thing", "Run tests  ", "  padded  ", " ünï çødé", "x", " # hash inside", " with : punctuation, and (parens)", ""}
+var c20Docs = []string{" 100% of the build", " Build the thing", "Run tests  ", "  padded  ", " ünï çødé", "x", " # hash inside", " with : punctuation, and (parens)", ""}
 
 func c20Gen(r *core.Rng) c20case {
 	var k c20case
 	nv := r.Range(0, 5)
 	for i := 0; i < nv; i++ {
-		k.Vars = append(k.Vars, [2]string{c20VarNames[i], core.Pick(r, []string{"1.2.3", "spok", "a b", "", "x/y", "a+b", "x&y", "<tag>", "a=b", "v" + fmt.Sprint(r.Intn(100))})})
+		k.Vars = append(k.Vars, [2]string{c20VarNames[i], core.Pick(r, []string{"1.2.3", "spok", "a b", "", "x/y", "a+b", "x&y", "<tag>", "a=b", "50%", "%d items", "v" + fmt.Sprint(r.Intn(100))})})
 	}
 	names := append([]string{}, c20TaskNames...)
 	core.Shuffle(r, names)
@@ -119,7 +119,7 @@ func (k c20case) cmdText(t c20task, i int, logPath string, tpl bool) string {
 			tag = "." + k.varValue(v)
 		}
 	}
-	return fmt.Sprintf("printf '%%s\\n' %s.%d >> %s && printf 'O.%s.%d%s\\n' && printf 'E.%s.%d\\n' >&2", t.Name, i, logPath, t.Name, i, tag, t.Name, i)
+	return fmt.Sprintf("printf '%%s\\n' %s.%d >> %s && printf '%%s\\n' 'O.%s.%d%s' && printf '%%s\\n' 'E.%s.%d' >&2", t.Name, i, logPath, t.Name, i, tag, t.Name, i)
 }
 
 func (k c20case) text(logPath string) string {
